@@ -3,7 +3,7 @@ import numpy as np
 
 from .. import gen
 from ..engine import Result, hyp_target
-from .common import F, G, base_sample, cfg_simplifications, observe, rows, weather_at
+from .common import F, G, STOR_TH0, base_sample, cfg_simplifications, observe, rows, weather_at
 
 ID = "C05"
 RULE = ("Hypothesis-generated configurations over all 37 crops (calendar and thermal), CCx/Zmin/Zmax/HI0/dHI0 overrides, 1-3 layer "
@@ -56,8 +56,11 @@ def evaluate(cfg):
     dap = gr[:, G["dap"]]
     season = gr[:, G["season_counter"]].astype(int)
     ins = dap > 0
-    # ---- outside a growing season --------------------------------------------------------------
-    off = ~ins
+    # ---- outside a growing season (the growing-season flag of the water-storage table) -----------------
+    off = tr.storage[idx][:n, 1] == 0
+    if (off & ins).any() or ((~off) & (~ins)).any():
+        j = int(np.argmax((off & ins) | ((~off) & (~ins))))
+        res.fail("offseason:dap", "step %d (%s): growing-season flag %s but days after planting %d" % (j, tr.date[j].date(), not off[j], int(dap[j])))
     for name in ("canopy_cover", "biomass", "DryYield", "FreshYield"):
         col = gr[off, G[name]]
         if (col != 0).any():
